@@ -2,15 +2,19 @@
 
 Receive path: headers announcing every boundary value (field array 2^26-1, 2^26, 2^26+1, ...; total 2^27-1, 2^27,
 2^27+1; 2^32-1) followed by 0..32 bytes are written to the peer end of a real connection; the worker calls
-conn.recv.get_next_message with a wrapping allocator that records the high-water mark.  A rejected announcement must
-fail at once (no waiting for the announced bytes) having allocated no more than a few KiB; an announcement within the
-limits may reserve at most 2^27 bytes.
+conn.recv.get_next_message with a wrapping allocator that records the high-water mark.  A refused announcement must end
+the call with the limit error itself (MessageTooLong / ArrayTooLong - never TimedOut: the call must not wait for the
+announced bytes; the 300 ms time-out only ends the wait for bytes that never come and decides nothing) having allocated
+less than 64 KiB; an accepted announcement may reserve the announced size - at most 2^27 bytes, which the protocol allows -
+and not more: memory is bounded by the announced, accepted size, not by the bytes received so far.
 Decoders: arrays/dicts/strings declaring 2^26-1 .. 2^32-1 bytes with few bytes present, nesting 60..66, 100, 1000, 20000
 (variants, variant/array towers, struct/array towers at the signature limits) through validate_raw, the Param decoder,
 the typed decoders, the body parser and the header decoder: limit exceeded => error, on both builds, without crash.
-Send path: an array of 2^26 bytes is accepted and announced as 2^26, one of 2^26+1 (+4, +8 for wider elements) is
-refused, through the slice fast path, the per-element path and the Param API; Param trees nested 64 / 65 levels;
-messages of 2^27 bytes and more (thorough: the exact boundary).
+Send path: an array of 2^26 bytes is accepted and announced as 2^26, one of 2^26+1 (+4, +8, +9 for wider elements) is
+refused, through the slice fast path, the per-element path, the typed HashMap path and the Param array and Param dict
+paths; Param trees nested 64 / 65 levels; messages of 2^27 bytes and more (thorough: the exact boundary); TYPED values
+of self-referential types nested up to and beyond 64 levels are pushed, marshalled and sent over a real connection: the
+typed marshaller counts no nesting (known finding D21s), everything else that exceeds a limit on send is a violation.
 The expected verdicts are computed here from the protocol's numbers, independently of the models; the extracted
 marshaller model (ocaml/wire) is compared on the nesting cases as the tie for the theorems in Properties/C18.v.
 """
@@ -60,6 +64,7 @@ def gen_recv(g):
                 c = c04.Case("recv:" + ("reject" if reject else "within"), "RX %s" % c04.hx(first16(bo, body, hfl) + tail), 16 + k,
                              note="hfl=%d body_len=%d announced=%d" % (hfl, body, total))
                 c.reject = reject
+                c.limit = reject
                 c.total = total
                 cases.append(c)
     # fixed headers that are wrong in another way: rejected as soon as 16 bytes are there
@@ -74,13 +79,20 @@ def gen_recv(g):
 def judge_recv(c, res, build):
     if res.status in c04.CRASH or res.status not in ("ok", "err"):
         return "receive path [%s build]: %s instead of a message or an error (%s; %s)" % (build, res.status, c.note, res.raw[:120])
-    peak, ms = res.num("peak"), res.num("ms")
+    peak = res.num("peak")
+    kind = res.f.get("kind")
     if c.reject:
-        if res.status != "err" or res.f.get("kind") == "timedout":
-            return "receive path [%s build]: an announcement beyond the limits was not refused at once (%s; %s)" % (build, c.note, res.raw[:120])
+        # recognised by the error, not by the clock: a refusal is the limit error (or, for a fixed header that is invalid in another
+        # way, a decoding error); waiting for the announced bytes would end as TimedOut
+        if res.status != "err" or kind in ("timedout", "closed", None):
+            return "receive path [%s build]: an announcement beyond the limits was not refused (%s; %s)" % (build, c.note, res.raw[:120])
+        if getattr(c, "limit", False) and kind != "limit":
+            return "receive path [%s build]: an announcement beyond the limits ended with another error than the limit error (%s; %s)" % (build, c.note, res.raw[:120])
         if peak > 64 * KIB:
             return "receive path [%s build]: %d bytes allocated for a refused announcement (%s)" % (build, peak, c.note)
     else:
+        if kind == "limit":
+            return "receive path [%s build]: an announcement within the limits was refused with the limit error (%s; %s)" % (build, c.note, res.raw[:120])
         if peak > MAXM + 64 * KIB:
             return "receive path [%s build]: %d bytes allocated, more than the largest message (%s)" % (build, peak, c.note)
         if peak > max(c.total, 16) + 64 * KIB:
@@ -104,6 +116,11 @@ def gen_send(g):
     add("SB bool le %d" % (MAXA + 4), False, "bool array with 2^26+4 bytes of content")
     add("SB pstr le %d" % MAXA, True, "Param array of strings with 2^26 bytes of content")
     add("SB pstr le %d" % (MAXA + 8), False, "Param array of strings with 2^26+8 bytes of content")
+    for bo in ("le", "be"):
+        add("SB dicts %s %d" % (bo, MAXA), True, "typed HashMap<u32, String> with exactly 2^26 bytes of content")
+        add("SB dicts %s %d" % (bo, MAXA + 9), False, "typed HashMap<u32, String> with 2^26+9 (or +16) bytes of content")
+        add("SB pdict %s %d" % (bo, MAXA), True, "Param dict a{us} with exactly 2^26 bytes of content")
+        add("SB pdict %s %d" % (bo, MAXA + 9), False, "Param dict a{us} with 2^26+9 (or +16) bytes of content")
     if g.thorough:
         add("SB dict le %d" % MAXA, True, "a{uu} with 2^26 bytes of content")
         add("SB dict le %d" % (MAXA + 8), False, "a{uu} with 2^26+8 bytes of content")
@@ -116,6 +133,12 @@ def gen_send(g):
             sig = "v"
         add("SD v %d" % d, d <= 64, "Param tree of %d nested variants" % d, model="MP le 0 " + " ".join(toks) if d <= 100 else None)
         add("SD mix %d" % d, d <= 64, "Param tree of %d nested variant/struct/array levels" % d)
+    # typed values of self-referential types (a derived enum, a dbus_variant_sig! enum, a Vec of the former)
+    for kind in ("drec", "msrec", "vec"):
+        for d in (1, 33, 61, 63, 64, 65, 66, 67, 101, 401):
+            c = c04.Case("send:typed", "ST %s %d" % (kind, d), 0, note="typed %s value built with depth parameter %d" % (kind, d))
+            c.want_ok = None
+            cases.append(c)
     add("SM le %d 0 0" % MAXA, True, "message with one 2^26 byte array")
     add("SM le %d %d 0" % (MAXA, MAXA), False, "message whose body alone has 2^27+8 bytes")
     return cases
@@ -125,6 +148,17 @@ def judge_send(c, res, build):
     if res.status in c04.CRASH or res.status not in ("ok", "err"):
         return "send path [%s build]: %s (%s; %s)" % (build, res.status, c.note, res.raw[:120])
     op = c.line.split(" ")[0]
+    if op == "ST":
+        nesting = res.num("nesting")
+        sent = res.status == "ok" and res.f.get("sent") == "true"
+        if nesting <= 64:
+            if not sent or res.f.get("validates") != "true" or res.num("onwire") != res.num("total"):
+                return "send path [%s build]: a typed value nested %d levels was not sent intact (%s)" % (build, nesting, res.raw[:160])
+            return None
+        if sent or res.f.get("pushed") == "true" or res.f.get("marshalled") == "true":
+            return "KNOWN:D21s send path [%s build]: a typed value nested %d levels deep was pushed, marshalled%s although the protocol allows 64 (own validate: %s)" % (
+                build, nesting, " and sent" if sent else "", res.f.get("validates"))
+        return None
     if op == "SM":
         total = res.num("total")
         if res.f.get("pushed") != "true":
@@ -167,8 +201,12 @@ def run(ctx):
     ctx.rule = ("receive cases = (byte order, announced header-field-array length, announced body length, 0..32 following bytes) over the "
                 "boundary values 2^26-8..2^26+8, 2^27-1..2^27+1 of the total, 2^32-1, and fixed headers invalid in other ways, each run "
                 "against a real connection with the allocator high-water mark recorded; decode cases = C04's nesting and length bombs with "
-                "the verdict the limits demand; send cases = arrays at and just above 2^26 bytes through the slice, per-element, dict and "
-                "Param paths, Param trees 1..1000 deep, messages around 2^27 bytes; every case on the release and the debug build; "
+                "the verdict the limits demand; send cases = arrays at and just above 2^26 bytes through the slice, per-element, typed "
+                "HashMap<u32,String>, Param array and Param dict paths (a{uu} with 2^23 entries: thorough only), Param trees 1..1000 deep, "
+                "typed self-referential values (derived enum, dbus_variant_sig! enum, Vec of them) nested 3..401 levels pushed, marshalled and "
+                "sent over a real connection, messages around 2^27 bytes; every case on the release and the debug build; receive verdicts: "
+                "refused = the call ends with the limit error (never TimedOut) and < 64 KiB allocated; accepted = at most the announced size "
+                "(<= 2^27) allocated; "
                 "non-trivial = the case sits at or beyond a limit; distinct = distinct case lines")
     ctx.trusted = ["Coq 8.16.1 kernel", "extraction (ExtrOcamlBasic only) + ocaml/wire/driver.ml", "harness c04 binary (supervisor, worker, wrapping allocator)",
                    "the limits 2^27 / 2^26 / 64 as my reading of the D-Bus specification"]
@@ -196,6 +234,7 @@ def run(ctx):
         k = c04.Case("corpus", line, len(line.split(" ")[-1]) // 2, note="corpus")
         if op == "RX":
             k.reject = exp == "reject"
+            k.limit = k.reject
             k.total = 0
             recv.insert(0, k)
         elif op in ("SB", "SD", "SM"):
@@ -239,6 +278,11 @@ def run(ctx):
                     why = judge_recv(c, res, build)
                 else:
                     why = judge_send(c, res, build)
+                    if why and why.startswith("KNOWN:D21s "):
+                        if ctx.known("D21s", "the typed marshaller counts no nesting: %s" % why[len("KNOWN:D21s "):][:170]):
+                            ctx.count("known:D21s")
+                            continue
+                        why = why[len("KNOWN:D21s "):]
                 if why and known and ctx.known("D21", "typed decoder on a self-referential user type does not count nesting: %s" % why[:140]):
                     ctx.count("known:D21")
                     continue
